@@ -458,10 +458,10 @@ def r_concat_offsets(c):
     # their names
     fd = m.expand_locals(m.inlined(fd), only="subscripts")
     # U: what the output index is compared with; L: what is subtracted from it
-    ups = {e["$U"] for e in find(fd, "Comparison($$x, '<', $U[$i])")} \
-        | {e["$U"] for e in find(fd, "prim.Comparison($$x, '<', $U[$i])")}
-    lows = {e["$L"] for e in find(fd, "prim.Variable($$n) - $L[$i]")} \
-        | {e["$L"] for e in find(fd, "Variable($$n) - $L[$i]")}
+    ups = {e["$U"] for e in find(fd, "Comparison($$x, '<', $U[$$i])")} \
+        | {e["$U"] for e in find(fd, "prim.Comparison($$x, '<', $U[$$i])")}
+    lows = {e["$L"] for e in find(fd, "prim.Variable($$n) - $L[$$i])".replace("])", "]"))} \
+        | {e["$L"] for e in find(fd, "Variable($$n) - $L[$$i]")}
     if not lows:
         # the index variable held in a local: any `<v> - L[i]` where v is bound to a
         # Variable(...)
@@ -476,6 +476,54 @@ def r_concat_offsets(c):
                             "is compared with (`<`) and the list of offsets subtracted from "
                             f"it (found {sorted(ups)} / {sorted(lows)})")
     L, U = lows.pop(), ups.pop()
+    if L == U:
+        # ONE list of running offsets T = [0, l0, l0+l1, ...]: operand i is read at
+        # (index - T[i]) under the guard index < T[i+1]
+        T = L
+        cmp_idx, sub_idx = set(), set()
+        for x in ast.walk(fd):
+            if isinstance(x, ast.Call) and ast.unparse(x.func).endswith("Comparison") \
+                    and len(x.args) == 3 and isinstance(x.args[2], ast.Subscript) \
+                    and ast.unparse(x.args[2].value) == T:
+                cmp_idx.add(ast.unparse(x.args[2].slice))
+            if isinstance(x, ast.BinOp) and isinstance(x.op, ast.Sub) \
+                    and isinstance(x.right, ast.Subscript) \
+                    and ast.unparse(x.right.value) == T:
+                sub_idx.add(ast.unparse(x.right.slice))
+        # ... also through a local helper that subtracts its parameter:
+        # get_subscript(i, T[i]) with `- offset` inside
+        for h in ast.walk(fd):
+            if not isinstance(h, ast.FunctionDef) or h is fd:
+                continue
+            hp = [a.arg for a in h.args.args]
+            for x in ast.walk(h):
+                if isinstance(x, ast.BinOp) and isinstance(x.op, ast.Sub) \
+                        and isinstance(x.right, ast.Name) and x.right.id in hp:
+                    pos = hp.index(x.right.id)
+                    for call in ast.walk(fd):
+                        if isinstance(call, ast.Call) and isinstance(call.func, ast.Name) \
+                                and call.func.id == h.name and len(call.args) > pos \
+                                and isinstance(call.args[pos], ast.Subscript) \
+                                and ast.unparse(call.args[pos].value) == T:
+                            sub_idx.add(ast.unparse(call.args[pos].slice))
+        inits = [a.value for a in ast.walk(fd) if isinstance(a, (ast.Assign, ast.AnnAssign))
+                 and a.value is not None and ast.unparse(
+                     a.targets[0] if isinstance(a, ast.Assign) else a.target) == T]
+        ok = bool(cmp_idx) and all(any(ci in (f"{si} + 1", f"1 + {si}") for si in sub_idx)
+                                   for ci in cmp_idx) \
+            and len(inits) == 1 and isinstance(inits[0], (ast.List, ast.Tuple)) \
+            and inits[0].elts and ast.unparse(inits[0].elts[0]) == "0"
+        c.check(ok, "R02-BIND", "ToIndexLambdaMixin.map_concatenate",
+                "offsets-are-the-running-sum", where,
+                f"with one list of offsets `{T}`: the guard of operand i must compare with "
+                f"{T}[i + 1] where its subscript subtracts {T}[i], and the list must start "
+                f"with 0 (compared at {sorted(cmp_idx)}, subtracted at {sorted(sub_idx)})")
+        acc = find(fd, f"{T}.append({T}[-1] + $a.shape[$$ax])") \
+            + find(fd, f"{T}.append($a.shape[$$ax] + {T}[-1])")
+        c.check(len(acc) == 1, "R02-BIND", "ToIndexLambdaMixin.map_concatenate",
+                "upper-bounds-accumulate", where,
+                f"the offsets `{T}` are not a running sum of the operands' lengths")
+        return
     feeds = []
     for x in ast.walk(fd):
         if isinstance(x, (ast.Assign, ast.AnnAssign)) and x.value is not None:
